@@ -99,7 +99,7 @@ pub fn stages(prop: &str, tier: &str) -> Vec<Stage> {
             v.push(stage("pairs of 1-op threads on a 70-order book", programs_1op(2, &[Book::B9, Book::B10], &big), Some(1)));
             v.push(stage("victim programs: one fine-grained operation against 3 call-atomic operations of another thread, B1 B2 B3 B12", programs_victim(&[Book::B1, Book::B2, Book::B3, Book::B12], &alpha, &[COp::Add, COp::Match(2), COp::Match(20), COp::Cancel(1), COp::Amend(1, 2)], 3), None));
         } else {
-            v.push(stage("victim programs: one fine-grained operation against 4 call-atomic operations of another thread, seven books", programs_victim(&[Book::B1, Book::B2, Book::B3, Book::B4, Book::B7, Book::B8, Book::B12], &wide, &small, 4), None));
+            v.push(stage("victim programs: one fine-grained operation against 4 call-atomic operations of another thread, seven books", programs_victim(&[Book::B1, Book::B2, Book::B3, Book::B4, Book::B7, Book::B8, Book::B12], &wide, &[COp::Add, COp::Match(2), COp::Match(20), COp::Cancel(1), COp::Amend(1, 2)], 4), None));
             v.push(stage("pairs and triples of 1-op threads on a 70-order book", { let mut p = programs_1op(2, &[Book::B9, Book::B10], &big); p.extend(programs_1op(3, &[Book::B9], &big)); p }, Some(2)));
             // a wider alphabet for the unbounded two-thread programs: iceberg adds, amend to zero display
             // (an order that can give nothing), a second price move
@@ -187,7 +187,7 @@ fn split_by_length(ps: Vec<Program>, max_steps: u32) -> (Vec<Program>, Vec<Progr
 }
 
 fn wall_cap(tier: &str, n: usize) -> Duration {
-    let total = if tier == "quick" { 45.0 } else { 1500.0 };
+    let total = if tier == "quick" { 45.0 } else { 2700.0 };
     let total = std::env::var("VERIF_WALL_CAP_S")
         .ok()
         .and_then(|s| s.parse::<f64>().ok())
@@ -946,25 +946,21 @@ pub fn validate_scheduler(rounds: usize) -> i32 {
 pub fn c15_stats_programs(tier: &str, cap: Duration) -> (u64, u64, Vec<String>, Vec<Value>) {
     use pricelevel::PriceLevel;
     let shapes: Vec<(usize, usize)> = if tier == "quick" {
-        vec![(1, 1), (1, 2), (2, 2), (1, 4), (1, 5)]
+        vec![(1, 1), (1, 2), (1, 3), (1, 4)]
     } else {
-        vec![(1, 1), (1, 2), (2, 2), (1, 4), (1, 5), (1, 6), (2, 3)]
+        vec![(1, 1), (1, 2), (2, 2), (1, 4), (1, 5), (1, 6)]
     };
     // "victim" programs: thread 0 is scheduled at every counter step, the other thread(s) only between their calls -
     // a thread that keeps losing a race against many complete calls of the others (cheap: few interleavings)
     let victim_shapes: Vec<(usize, usize, usize)> = if tier == "quick" {
         vec![(2, 1, 6), (2, 1, 12), (3, 1, 4), (2, 2, 8)]
     } else {
-        vec![(2, 1, 6), (2, 1, 12), (2, 1, 24), (3, 1, 4), (3, 1, 8), (2, 2, 8), (2, 3, 12)]
+        vec![(2, 1, 6), (2, 1, 12), (2, 1, 24), (3, 1, 4), (2, 2, 8), (2, 2, 12)]
     };
     let mut all: Vec<(usize, usize, usize, bool)> = vec![];
     for (n_first, n_other) in shapes.iter().copied() {
-        for k in [2usize, 3] {
-            if k == 3 && n_first + 2 * n_other > 5 {
-                continue;
-            }
-            all.push((k, n_first, n_other, false));
-        }
+        // (three fine-grained threads of 7 steps each already have 4*10^8 interleavings: three threads only as victim programs)
+        all.push((2usize, n_first, n_other, false));
     }
     for (k, a, b) in victim_shapes {
         all.push((k, a, b, true));
